@@ -55,6 +55,7 @@ func C15(r *core.Run) {
 	r.Floor("R-SYM/S1", 30, "fields of Object/Oneof/Enum/ObjectProperty/*Field written by the exporter")
 	carrierCoverage(r, exp, imp)
 	verbatimImport(r, imp, pk.TypesInfo)
+	importCopiesIndependent(r, imp, pk.TypesInfo)
 	exportNoOverride(r, pk)
 	refsLinkGuard(r)
 }
@@ -613,4 +614,96 @@ func identOfFun(e ast.Expr) *ast.Ident {
 		return id
 	}
 	return nil
+}
+
+// importCopiesIndependent (R-SYM/S7i): the importer copies each attribute of the
+// serialised form into the in-memory schema. The attributes are independent —
+// an object may be an entity part and a member of an Any set at once — so a
+// copy may be conditioned by tests on the attribute itself only. A copy that
+// sits in a later clause of a switch or an else-branch whose earlier
+// conditions test *another* attribute is skipped whenever that other
+// attribute is set: the value is lost on re-import.
+func importCopiesIndependent(r *core.Run, imp []ast.Node, info *types.Info) {
+	r.Rule("R-SYM/S7i", "in schema_from_desc.go an assignment `x.F = src.F` that copies a field of a generated schema message into the same-named field of an in-memory schema is conditioned only by tests that mention src.F itself: it does not sit in a switch clause or else-branch whose own or earlier conditions read another field of src")
+	n := 0
+	for _, body := range imp {
+		var stack []ast.Node
+		ast.Inspect(body, func(nd ast.Node) bool {
+			if nd == nil {
+				stack = stack[:len(stack)-1]
+				return true
+			}
+			stack = append(stack, nd)
+			as, ok := nd.(*ast.AssignStmt)
+			if !ok || len(as.Lhs) != 1 || len(as.Rhs) != 1 {
+				return true
+			}
+			l, ok := core.Unparen(as.Lhs[0]).(*ast.SelectorExpr)
+			if !ok {
+				return true
+			}
+			rsel, ok := core.Unparen(as.Rhs[0]).(*ast.SelectorExpr)
+			if !ok || rsel.Sel.Name != l.Sel.Name {
+				return true
+			}
+			srcT := core.NamedOf(info.TypeOf(rsel.X))
+			if srcT == nil || srcT.Obj().Pkg() == nil || srcT.Obj().Pkg().Path() != schemaPB {
+				return true
+			}
+			srcID, ok := core.Unparen(rsel.X).(*ast.Ident)
+			if !ok {
+				return true
+			}
+			srcObj := info.ObjectOf(srcID)
+			// conditions that decide whether this statement runs
+			var conds []ast.Expr
+			for i := len(stack) - 2; i >= 0; i-- {
+				switch x := stack[i].(type) {
+				case *ast.CaseClause:
+					var sw *ast.SwitchStmt
+					for j := i - 1; j >= 0; j-- {
+						if s, ok := stack[j].(*ast.SwitchStmt); ok {
+							sw = s
+							break
+						}
+					}
+					if sw == nil || sw.Tag != nil {
+						continue
+					}
+					for _, cl := range sw.Body.List {
+						cc := cl.(*ast.CaseClause)
+						conds = append(conds, cc.List...)
+						if cc == x {
+							break
+						}
+					}
+				case *ast.IfStmt:
+					conds = append(conds, x.Cond)
+				}
+			}
+			if len(conds) == 0 {
+				return true
+			}
+			n++
+			o := r.Add("R-SYM/S7i", fmt.Sprintf("schema_from_desc | %s = %s", core.NormExpr(info, l), core.NormExpr(info, rsel)), as.Pos(), "conditional copy of "+rsel.Sel.Name)
+			other := ""
+			for _, c := range conds {
+				ast.Inspect(c, func(m ast.Node) bool {
+					if s, ok := m.(*ast.SelectorExpr); ok {
+						if id, ok := core.Unparen(s.X).(*ast.Ident); ok && info.ObjectOf(id) == srcObj && s.Sel.Name != rsel.Sel.Name && strings.TrimPrefix(s.Sel.Name, "Get") != rsel.Sel.Name {
+							other = s.Sel.Name
+						}
+					}
+					return true
+				})
+			}
+			if other == "" {
+				o.Auto("conditioned by tests on %s only", rsel.Sel.Name)
+			} else {
+				o.Fail("whether %s is copied depends on %s: a schema that has both loses %s on import, and the second export differs from the first", rsel.Sel.Name, other, rsel.Sel.Name)
+			}
+			return true
+		})
+	}
+	r.Analysed["conditional_import_copies"] = n
 }
